@@ -5,7 +5,7 @@
    the other side's kind, directional reversed); a dot gives no slot.  [flat0 bd] is the event history of the syntax. *)
 From Coq Require Import List NArith Bool.
 Import ListNotations.
-Require Import P.Spec.Values P.Spec.Known P.Model.Base P.Model.Builder P.Proofs.C09_Inverse P.Spec.Denote P.Proofs.DenoteSym P.Proofs.DenoteFinal.
+Require Import P.Spec.Values P.Spec.Known P.Model.Base P.Model.Builder P.Proofs.C09_Inverse P.Spec.Denote P.Proofs.DenoteSym P.Proofs.DenoteFinal P.Model.Reader P.Proofs.C02_Final.
 
 (* for every syntax tree (any nesting, dots in branches, re-used numbers, several digits per atom, any kinds on the two
    ends of a closure) outside C06's known class: the builder's result IS the denotation -- the same graph, or the same
@@ -22,6 +22,18 @@ Proof. exact builder_is_denotation. Qed.
 Theorem C02_atoms_are_the_atom_tokens : forall k0 bd g, nopanic bd -> bld (ERoot k0 :: flat0 bd) = BOk g ->
   map akind g = k0 :: map (fun p => Denote.adj (fst p) (snd p)) (atoms_of bd) /\ length g = 1 + length (atoms_of bd).
 Proof. intros k0 bd g Hn Hb. exact (built_atoms_are_the_atom_tokens k0 bd g Hn Hb). Qed.
+(* for every accepted string: its event history is the flattening of the syntax tree [syntax_of] computes, and the
+   builder's result is the denotation of that tree *)
+Theorem C02_reading_builds_the_denotation : forall s h, rd s = (VOk, h) ->
+  (forall b k, In (EExtend b k) h -> known_invert_panic k = false) ->
+  exists k0 bd, syntax_of h = Some (k0, bd) /\ h = ERoot k0 :: flat0 bd /\
+    match bld h, denote k0 bd with
+    | BOk g, DOk g' => g = g'
+    | BErr (Builder.BJoin x y), DJoin x' y' => x = x' /\ y = y'
+    | BErr (BRnum rid), DUnmatched occs => In rid occs
+    | _, _ => False end.
+Proof. exact reading_builds_the_denotation. Qed.
 
+Print Assumptions C02_reading_builds_the_denotation.
 Print Assumptions C02_builder_is_denotation.
 Print Assumptions C02_atoms_are_the_atom_tokens.
